@@ -38,7 +38,7 @@ static void put(unsigned char* p, std::size_t width, std::uint64_t v)
 
 static vh::guarded_buffer& gbuf()
 {
-    static vh::guarded_buffer b(1 << 16);
+    static vh::guarded_buffer b(1 << 20);
     return b;
 }
 
@@ -182,6 +182,13 @@ struct flat_explorer
             }
             // it[k] is *(it+k)
             int k = j - idx;
+            if((int)(D)k != k || (int)(D)(-k) != -k)
+            {
+                // the offset is not representable in the iterator's difference_type: outside the iterator's domain
+                if(j < (int)n)
+                    ++jt;
+                continue;
+            }
             if((std::size_t)j < n)
             {
                 auto a = (const unsigned char*)sbepp::addressof(it[(D)k]);
@@ -309,7 +316,8 @@ struct flat_explorer
             fail(cfg, "flat:empty", s, "empty()", "VALUE", "");
         if(sbepp::size_bytes(g) != total)
             fail(cfg, "flat:size_bytes", s, "size_bytes", "VALUE", "got " + std::to_string(sbepp::size_bytes(g)) + " want " + std::to_string(total));
-        if(!(g.begin() + (D)n == g.end()) || (g.end() - g.begin()) != (D)n)
+        // only where the size is representable in the group's difference_type (signed numInGroup type)
+        if((std::size_t)(D)n == n && (!(g.begin() + (D)n == g.end()) || (g.end() - g.begin()) != (D)n))
             fail(cfg, "flat:begin+size==end", s, "begin()+size()", "VALUE", "");
         for(std::size_t i = 0; i < n; i++)
             if((const unsigned char*)sbepp::addressof(g[(size_type)i]) != base + HDR + i * bl)
@@ -351,10 +359,27 @@ struct flat_explorer
 
     void run()
     {
-        static const std::size_t bls[] = {0, 1, 2, 5};
+        // wire block lengths: small ones, and values beyond the signed range of each narrower integer type
+        std::vector<std::size_t> bls{0, 1, 2, 5, 127, 128, 200, 255};
+        if(BW >= 2)
+        {
+            bls.push_back(256);
+            bls.push_back(32768);
+            bls.push_back(65535);
+        }
+        if(BW >= 4)
+            bls.push_back(70000);
+        // group sizes: 0..3, and sizes beyond the signed range of a uint8 numInGroup (only with tiny blocks)
+        std::vector<std::pair<std::size_t, std::size_t>> cfgs;
         for(std::size_t nn = 0; nn <= 3; nn++)
             for(std::size_t b : bls)
+                cfgs.emplace_back(nn, b);
+        for(std::size_t nn : {127u, 128u, 200u, 255u})
+            for(std::size_t b : {0u, 1u, 3u})
+                cfgs.emplace_back(nn, b);
+        for(auto& cf : cfgs)
             {
+                const std::size_t nn = cf.first, b = cf.second;
                 build(nn, b);
                 states += nn + 1;
                 auto out = vh::guarded(
